@@ -1998,7 +1998,9 @@ def r6(ctx):
         a direct occurrence inside a closure counts where the closure is called"""
         out = []
         nested_defs = {d.name: d for d in walk(g.node, into_defs=True) if isinstance(d, FUNC_TYPES) and d is not g.node}
-        inner = {dn for dn, d in nested_defs.items() if any(pred(g, n) for n in walk(d, into_defs=True))}
+        inner = {dn for dn, d in nested_defs.items()
+                 if any(pred(g, n) or (isinstance(n, ast.Call) and any(h.full in have and h is not g for h in callees(g, n)))
+                        for n in walk(d, into_defs=True))}
         for n in walk(g.node, into_defs=True):
             in_nested = any(isinstance(a, FUNC_TYPES) and a is not g.node for a in ancestors(n))
             if in_nested:
